@@ -112,11 +112,20 @@ def _laws(ctx, psize, only=None, pool=None, stream=None):
                     lt[(sa, sb)] = gt[(sa, sb)] = "raise:" + type(e).__name__
         texts = [s for s, _ in pool]
         region = None
+        compat = None
+        if name == "conan":
+            # the domain of the conan theorem, decided by the model itself (`Conan.Compat`: numbers and words never
+            # share a position), not by a reading of the text
+            prs = [(a, b) for a in texts for b in texts]
+            ans = common.run_model(["vcompat conan %s %s" % (common.hx(a), common.hx(b)) for a, b in prs]) if prs else []
+            compat = {pr: x == "in" for pr, x in zip(prs, ans)}
         if name == "maven":
             ans = common.run_model(["vdomain maven %s" % common.hx(t) for t in texts])
             indom = {t: a == "in" for t, a in zip(texts, ans)}
         for a, b, c in itertools.product(texts, repeat=3):
             if not A.c01_in_domain(name, [a, b, c]):
+                continue
+            if compat is not None and not (compat[(a, b)] and compat[(b, c)] and compat[(a, c)]):
                 continue
             ctx.count(stream, key=(a, b, c), nontrivial=len({a, b, c}) == 3)
             bad = None
